@@ -32,7 +32,8 @@ Soft(name, ok) == ok \/ PrintT(<<"SOFT_VIOLATION", name, l>>)
 SoftNoForgedDelivered == Soft("ForgedDelivered", NoForgedDelivered)
 \* a genuine packet the receiver had to accept was discarded.  If the code-shaped key-phase machine of PacketProt
 \* predicts exactly this rejection the name says why (stale read key of generation g-2 in the slot of that phase).
-SoftGenuineAccepted == Soft(IF res.model THEN "GenuineRejected" ELSE "GenuineRejected_StaleReadKey", GenuineAccepted)
+SoftGenuineAccepted == Soft("GenuineRejected", res.model => GenuineAccepted)
+SoftStaleReadKey == Soft("GenuineRejected_StaleReadKey", ~res.model => GenuineAccepted)
 SoftBitIdentical == Soft("NotBitIdentical", BitIdentical)
 SoftNothingElse == Soft("ExtraPacketDelivered", NothingElseDelivered)
 \* diagnostic only (not a property of C06): the implementation's cur_phase follows the code-shaped machine
